@@ -43,12 +43,21 @@ class Workspace:
         self.prefix = "s_" + "".join(c if c.isalnum() else "_" for c in name) + "_"
 
     def write(self, modules, features=ALL_FEATURES):
-        """modules: list of (decl_id, module_text)."""
-        n = max(1, min(self.nshards, (len(modules) + 7) // 8))
+        """modules: list of (decl_id, module_text). Declarations whose id starts with `r` (the seeded random tail) go to
+        shards of their own, so the core shards stay byte-identical across seeds and are not rebuilt."""
+        core = [m for m in modules if not m[0].startswith("r")]
+        tail = [m for m in modules if m[0].startswith("r")]
+        n = max(1, min(self.nshards, (len(core) + 7) // 8))
         self.nshards_used = n
         shards = [[] for _ in range(n)]
-        for i, m in enumerate(modules):
+        for i, m in enumerate(core):
             shards[i % n].append(m)
+        if tail:
+            nt = max(1, min(4, (len(tail) + 59) // 60))
+            tshards = [[] for _ in range(nt)]
+            for i, m in enumerate(tail):
+                tshards[i % nt].append(m)
+            shards += tshards
         members = []
         for k, mods in enumerate(shards):
             cname = "%s%02d" % (self.prefix, k)
